@@ -569,12 +569,39 @@ fn call(m: &GenModel, cfg: &RunCfg) -> Outcome {
         )),
         Entry::BuilderAuto => via_builder(m, rooc::Auto),
         Entry::BuilderMicrolp => {
+            // The solver configuration is reached through one of four setter chains (a pure
+            // function of the run's configuration, so replay sees the same one): directly;
+            // over earlier, different values of the same options; the same through a clone;
+            // or with the two options set in the other order. The last value set is the
+            // configuration, whatever was there before.
+            let chain = crate::rng::fnv(format!("{cfg:?}").as_bytes()) % 4;
             let mut s = rooc::Microlp::new();
-            if let Some(g) = options.mip_gap {
-                s = s.with_mip_gap(g);
+            if chain == 1 || chain == 2 {
+                if let Some(g) = options.mip_gap {
+                    s = s.with_mip_gap(if g == 0.5 { 0.25 } else { 0.5 });
+                }
+                if options.time_limit.is_some() {
+                    s = s.with_time_limit(std::time::Duration::from_secs(7));
+                }
+                if chain == 2 {
+                    let earlier = s.clone();
+                    s = earlier.clone();
+                }
             }
-            if let Some(l) = options.time_limit {
-                s = s.with_time_limit(l);
+            if chain == 3 {
+                if let Some(l) = options.time_limit {
+                    s = s.with_time_limit(l);
+                }
+                if let Some(g) = options.mip_gap {
+                    s = s.with_mip_gap(g);
+                }
+            } else {
+                if let Some(g) = options.mip_gap {
+                    s = s.with_mip_gap(g);
+                }
+                if let Some(l) = options.time_limit {
+                    s = s.with_time_limit(l);
+                }
             }
             via_builder(m, s)
         }
